@@ -5,7 +5,8 @@
    all answers of the two oracles (graph.ShortenFunctionName, filepath.Clean).
    [stacks_of] is the model of Report.Stacks (M_Stacks); [expected_keys], [stack_matches],
    [first_index], [self_sum], [sum_values] are the specification (S_Stacks). *)
-From PV Require Import M_Stacks S_Stacks L_Stacks M_Handoff S_Handoff L_Handoff.
+From PV Require Import M_Report.
+From PV Require Import M_Stacks S_Stacks L_Stacks M_Handoff S_Handoff L_Handoff M_StacksGlue L_StacksGlue.
 Open Scope string_scope.
 Open Scope Z_scope.
 Open Scope list_scope.
@@ -144,6 +145,41 @@ Theorem handoff_delivers_whole_call : forall pieces after,
   script_delivers (concat_str pieces ++ "</script>" ++ after) (String.length (concat_str pieces)) = true.
 Proof. exact script_delivers_lemma. Qed.
 Print Assumptions handoff_delivers_whole_call.
+
+(* -- end to end: `pprof -http <flags> profile`, then a history of requests --------------------
+   [flamegraph_request f u loaded] is the glue model: command-line flags f, URL parameters u, the
+   profile as loaded.  A session answers every request as a fresh session would (no report, no
+   configuration and no profile state survives a request) ... *)
+Theorem web_session_history_irrelevant : forall st reqs,
+  serve st reqs = (map (fun u => flamegraph_request (fst st) u (snd st)) reqs, st).
+Proof. exact serve_lemma. Qed.
+Print Assumptions web_session_history_irrelevant.
+
+(* ... a sample index given in the URL decides alone: whatever -sample_index / legacy selection
+   flags were given on the command line, the answer is the same ... *)
+Theorem url_sample_index_overrides_command_line : forall f f' u p,
+  u_si u <> "" ->
+  gf_mean f = gf_mean f' -> (forall x, existsb (String.eqb x) (gf_legacy f) = existsb (String.eqb x) (gf_legacy f')) ->
+  gf_gran f = gf_gran f' -> gf_noinlines f = gf_noinlines f' -> gf_columns f = gf_columns f' -> gf_trim f = gf_trim f' ->
+  flamegraph_request f u p = flamegraph_request f' u p.
+Proof. exact url_si_wins_lemma. Qed.
+Print Assumptions url_sample_index_overrides_command_line.
+
+(* ... and whatever flags and URL parameters are given, the page holds one stack per sample of the
+   profile THE USER LOADED, in order, with that sample's selected value (aggregation renames frames,
+   it never merges or drops samples) *)
+Theorem flamegraph_one_stack_per_loaded_sample : forall shorten clean f u loaded o unit p,
+  flamegraph_request f u loaded = WebOk o unit p ->
+  let R := stacks_of shorten clean o p in
+  List.length (ss_stacks R) = List.length (p_sample loaded)
+  /\ map sk_value (ss_stacks R) = map (fun s => value_at (o_index o) (s_val s)) (p_sample loaded).
+Proof. exact e2e_one_stack_lemma. Qed.
+Print Assumptions flamegraph_one_stack_per_loaded_sample.
+
+Theorem flamegraph_default_granularity : forall g,
+  stack_view_gran g = "filefunctions" <-> (g = "" \/ g = "filefunctions").
+Proof. exact default_gran_lemma. Qed.
+Print Assumptions flamegraph_default_granularity.
 
 (* the model walks frames in the order the specification describes them (Go's two descending loops
    with "inlined := j != len-1" = outermost line first, the others flagged) *)
